@@ -68,6 +68,14 @@ checks.update({
    text="model_checking: one MC_Mixin family per HTTP method puts id collisions primary<->mixin and mixin<->mixin and id-less operations under that method; InvIds holds on all reachable histories; the real code's operation ids after each absorbed mixin must equal the model's and satisfy IdsOK.",
    note="As C17; histories respect the precondition of the property (ids unique within each document, no id of the form <id>Mixin<N> of another).",
    ref="7/C18"),
+ "C19": dict(
+   technique="TLA+ spec of the fixer over typed positions (Fixer.tla: Fix = description := '(empty)' at response-typed, non-$ref, undescribed positions); TLC exhaustive decision table (MC_Fixer: response kind x location x 7 methods x missing responses object / paths) with invariants Idempotent, Complete, OnlyDescs, KeepsGiven, RefsUntouched; every enumerated document + random + fixtures run through the real function twice and validated by TLC (Trace_Fixer: after = Fix(before), after2 = after)",
+   text="model_checking: the decision table is enumerated completely in the model and replayed; TLC decides on every recorded triple (before, after, after second call) that the real function did exactly what Fix specifies - nothing missed, nothing else changed, idempotent, no panic.",
+   note="Trusted: projection (round-trip self-checked), TLC/Json.", ref="7/C19"),
+ "C20": dict(
+   technique="TLA+ transcription of the classification rules (Classify.tla, with visited-set recursion through $ref/items/additionalProperties); TLC exhaustive over the schema grammar (MC_Classify: 22 leaf kinds x 9 containers to depth 2/3 inside a root with self-containing and mutually recursive targets) checking coherence, $ref transparency and the documented complexity rule on the specification; every enumerated, random and fixture schema position classified by the real Schema() in isolated workers and compared flag by flag by TLC (Trace_Classify)",
+   text="model_checking: coherence laws and $ref transparency are invariants of the specified classification over the whole enumerated grammar; the real Schema() must return the specified flags at every schema position of every replayed document (simple flags are left free only on containers of themselves), be coherent and $ref-transparent on its own answers, and terminate (stack overflow / time-out attributed per document).",
+   note="Trusted: strfmt registry membership supplied as a relation; schema positions taken from the analyzer (validated by C12); projection; TLC/Json.", ref="7/C20"),
 })
 
 def check_entry(pid, c):
